@@ -135,6 +135,27 @@ def run(ctx, prop):
                     os.makedirs(o)
                 rc, _ = E.run_idlc(ctx, root, "main.idl", [], b, o)
                 outs[b] = (rc, _read(o))
+            # documentation in front of a member that is not a method has no method to attach to:
+            # the output must not change at all
+            in_iface = 0
+            for j, (ws, t) in enumerate(toks):
+                if t in ("error", "const") and j > 0 and toks[j - 1][1] in ("{", ";"):
+                    newtoks = toks[:j] + [(ws, "/**\n * ZDOCMARK orphan text\n */"), ("\n  ", t)] + toks[j + 1:]
+                    open(mainp, "w").write("".join(w + x for w, x in newtoks) + tail)
+                    hist["doc_variants"] += 1
+                    if pst_ok(ctx, mainp):
+                        for b in ("c", "cpp", "rust", "java"):
+                            if outs[b][0] != 0:
+                                continue
+                            o = os.path.join(tmp, f"odoc{j}-{b}")
+                            if b in ("rust", "java"):
+                                os.makedirs(o)
+                            rc, err = E.run_idlc(ctx, root, "main.idl", [], b, o)
+                            if rc != 0 or _read(o) != outs[b][1]:
+                                oracle_fail.append({"case": {"idl": open(mainp).read()[:600]}, "failures": [
+                                    {"error": "documentation in front of a non-method member changed the output", "backend": b, "rc": rc,
+                                     "marker_in_output": "ZDOCMARK" in _read(o)}]})
+                        distinct.add(("orphan-doc", t))
             for j, (ws, t) in enumerate(toks):
                 if t != "method" and not t.startswith("#["):
                     continue
@@ -167,6 +188,17 @@ def run(ctx, prop):
                         if rc != 0 or strip_comments(new, lang) != strip_comments(outs[b][1], lang):
                             oracle_fail.append({"case": {"idl": open(mainp).read()[:600]}, "failures": [
                                 {"error": "a documentation comment changed more than comment text", "backend": b, "rc": rc}]})
+                        elif "added doc" in doc and "added doc" in new:
+                            # ... and the text sits on the method that immediately follows it in the IDL
+                            mname = next((x for _, x in toks[j:] if x not in ("method",) and not x.startswith("#[")), None)
+                            for occ in [m_.start() for m_ in re.finditer("added doc", new)]:
+                                rest = new[occ:].split("\n")[1:]
+                                code = next((ln for ln in rest if ln.strip() and not ln.strip().startswith(("*", "/*", "//", "#[", "@"))), "")
+                                if mname and mname not in code:
+                                    oracle_fail.append({"case": {"idl": open(mainp).read()[:600]}, "failures": [
+                                        {"error": "documentation text is attached to something else than the method that follows it", "backend": b,
+                                         "method": mname, "next_code_line": code.strip()[:120]}]})
+                                    break
                     distinct.add(("doc", j))
                 break_after = True
             open(mainp, "w").write(text)
@@ -198,6 +230,13 @@ def run(ctx, prop):
                             known_seen.setdefault("K14-javaMarkingTerminator", rec)
                         else:
                             oracle_fail.append({"case": {"idl": text[:300]}, "failures": [rec]})
+                    # and back: the same command without the marking, into the SAME target, gives
+                    # the unmarked output again (nothing of the longer run is left behind)
+                    if rc == 0 and style == "c":
+                        rc_b, _ = E.run_idlc(ctx, root, "main.idl", [], b, o)
+                        if rc_b != 0 or _files(o) != without:
+                            oracle_fail.append({"case": {"idl": text[:300]}, "failures": [
+                                {"error": "re-running without the marking into the same target does not give the unmarked output", "backend": b}]})
                     distinct.add(("marking", b, marking))
             # ---- (e) --no-typed-objects changes only the spelling of object types in C signatures
             ifnames = list(idl.iface_table(case))
